@@ -29,6 +29,10 @@ def gen_case(rng, tier, avoid):
     used = set()
     for _ in range(rng.choice([1, 1, 2])):
         gen.frame_block(spec, lfi, rng, rows=rows, used=used, max_width=8, index=rng.random() < 0.4)
+    from .c03 import SAFE_CASTS
+    for op in spec.ops:
+        if op.get('op') == 'add' and op['kind'] == 'channel' and rng.random() < 0.2:
+            op['kwargs']['cast_dtype'] = gen.cast_literal(rng, gen.pick(rng, SAFE_CASTS[op['kwargs']['data']['$arr']['dtype'][1:]]))
     a = rng.randint(0, rows - 1)
     b = rng.randint(a + 1, rows)
     if 'fastpath_window' in avoid:
